@@ -885,6 +885,14 @@ class _Gen:
             if '.' not in qual and not dm.is_pkg and r.random() < .3:
                 dm.items.insert(0, Item(kind='raw', text=r.choice([f'from typing import Any as {qual}', f'from collections import OrderedDict as {qual}'])))
                 s.notes['definer_imports_the_name'] = True
+        # the defining module uses its re-exporter itself, below its definitions (a real import cycle: when the defining module is analysed
+        # first, the re-exporter is analysed in the middle of it and moves objects out of a module that is still being processed)
+        for uid, (rmid, exported) in list(s.moved.items()):
+            dmid, qual, kind = s.defs[uid]
+            dm = next(x for x in s.mods if x.mid == dmid)
+            if '.' not in qual and not dm.is_pkg and r.random() < .2 and not any(it.kind == 'raw' and it.text.startswith('import ') for it in dm.items[-1:]):
+                dm.items.append(Item(kind='raw', text=f'import {s.modname(rmid)}'))
+                s.notes.setdefault('definers_importing_reexporter', set()).add(dmid)
         # insiders: definitions of the defining module itself that name the re-exported object in annotations, by the name it has
         # there, and that are themselves re-exported by a module that does not bind that name
         ins = []
